@@ -10,8 +10,16 @@ from selftest.mutate import make_scratch, run_check
 from analysis.meta import META
 
 
+def _head():
+    try:
+        return subprocess.check_output(["git", "-C", HERE, "rev-parse", "--short", "HEAD"], text=True, stderr=subprocess.DEVNULL).strip()
+    except Exception:
+        return os.environ.get("VERIF_HEAD", "unknown")
+
+
 def one(name):
-    d = os.path.join(HERE, "seeded", name)
+    kind = "neutral" if name.endswith("-n") else "seeded"
+    d = os.path.join(HERE, kind, name)
     meta = json.load(open(os.path.join(d, "meta.json")))
     root = make_scratch("refresh-" + name)
     try:
@@ -30,9 +38,13 @@ def one(name):
             elif rc == 2:
                 fired[p] = ["CANNOT-ANALYSE"]
         meta["static_checks_that_fire"] = fired
-        meta["caught_by_target_property_check"] = meta["property"] in fired and fired[meta["property"]] != ["CANNOT-ANALYSE"]
         meta["checks_refreshed_at"] = time.strftime("%Y-%m-%dT%H:%M:%SZ", time.gmtime())
-        meta["verif_commit_when_refreshed"] = subprocess.check_output(["git", "-C", HERE, "rev-parse", "--short", "HEAD"], text=True).strip()
+        meta["verif_commit_when_refreshed"] = _head()
+        if kind == "neutral":
+            meta["all_checks_silent"] = not fired
+            json.dump(meta, open(os.path.join(d, "meta.json"), "w"), indent=1)
+            return name, "SILENT" if not fired else "NOISY", fired
+        meta["caught_by_target_property_check"] = meta["property"] in fired and fired[meta["property"]] != ["CANNOT-ANALYSE"]
         json.dump(meta, open(os.path.join(d, "meta.json"), "w"), indent=1)
         return name, "CAUGHT" if meta["caught_by_target_property_check"] else "MISSED", fired
     finally:
@@ -40,8 +52,8 @@ def one(name):
 
 
 def main():
-    names = sys.argv[1:] or sorted(os.listdir(os.path.join(HERE, "seeded")))
-    with ThreadPoolExecutor(max_workers=3) as ex:
+    names = sys.argv[1:] or (sorted(os.listdir(os.path.join(HERE, "seeded"))) + sorted(os.listdir(os.path.join(HERE, "neutral"))))
+    with ThreadPoolExecutor(max_workers=int(os.environ.get('REFRESH_JOBS', '3'))) as ex:
         for name, verdict, fired in ex.map(one, names):
             print("%-8s %-8s %s" % (name, verdict, sorted(fired)), flush=True)
 
